@@ -258,6 +258,39 @@ pub fn run(cfg: &Cfg, rep: &mut Report) {
     rep.exhaustive_what.push(format!("all sequences of <= 2 of {} entity/escape-shaped fragments, every split point", FRAGS.len()));
     bt.run(&m, rep);
 
+    // 1c. long unbroken runs of escaped bytes, every length up to a few buffer sizes, followed by each kind
+    // of byte (a pending-output buffer or a chunked fast path shows only at its own boundary)
+    let mut bt = Batch::new();
+    let fills: [&[u8]; 7] = [b" ", b"\xe6\x97\xa5", b"\"", b"<", b"&'", b"\xff", b"\x01"];
+    let followers: [&[u8]; 9] = [b"", b"&", b"'", b"a", b"%", b"\xff", b"<", b"\"", b"&amp;"];
+    let mut runs = 0usize;
+    for (fi, fill) in fills.iter().enumerate() {
+        let maxlen = if fi < 2 { 700 } else { 160 };
+        for l in 0..=maxlen {
+            for fo in followers.iter() {
+                for pre in [&b""[..], &b"a"[..]] {
+                    let mut a: Vec<u8> = pre.to_vec();
+                    while a.len() < pre.len() + l {
+                        a.extend_from_slice(fill);
+                    }
+                    a.truncate(pre.len() + l);
+                    a.extend_from_slice(fo);
+                    let cut = a.len() / 2;
+                    push_concat_case(rep, &a[..cut], &a[cut..]);
+                    push_bytes_case(&mut bt, rep, a);
+                    runs += 1;
+                }
+            }
+        }
+        if bt.len() > 20_000 {
+            bt.run(&m, rep);
+            bt = Batch::new();
+        }
+    }
+    rep.add("escaped-runs", runs as u64);
+    rep.exhaustive_what.push("runs of escaped bytes of every length 0..160 (0..700 for two fills) x 9 followers x 2 prefixes, both escapers".into());
+    bt.run(&m, rep);
+
     // 2. random longer strings
     let n = if cfg.tier_thorough { 300_000 } else if cfg.full { 60_000 } else { 12_000 };
     let mut bt = Batch::new();
